@@ -206,6 +206,11 @@ def main(tier: str) -> int:
         if rnd.random() < 0.3:
             data = perturb(data, rnd)
         jobs.append(("perturbed", None, data))
+    # a huge declared frame length with MORE than one read chunk (1 MiB) of real bytes behind it: a valid stream, then the bogus prefix, then 1.5 MiB
+    filler = (valid[0] * (1 + (3 * 2**19) // max(1, len(valid[0]))))[: 3 * 2**19]
+    for declared in (2**27, 2**31 - 1, 6 * 2**30):
+        for lead in (b"", valid[0]):
+            jobs.insert(len(jobs) // (2 + (declared % 3)), ("huge-length-with-payload", None, lead + wire.enc_varint(declared) + filler))
     pool = Pool()
     distinct = set()
     outcomes: dict = {}
@@ -214,6 +219,8 @@ def main(tier: str) -> int:
     hangs = 0
     for i, (kind, toks, data) in enumerate(jobs):
         sources = ["bytesio", "raw", "file"] if i % 3 else ["bytesio", "raw", "raw7", "buffered"]
+        if kind == "huge-length-with-payload":
+            sources = ["bytesio", "raw", "file", "buffered"]
         if hangs >= 6:
             break                      # the point is made; every further hang costs a full watchdog period
         # the watchdog covers all 12-18 parses of one input: a fixed allowance plus time proportional to the input size ("promptly")
